@@ -122,9 +122,10 @@ Definition fast_retransmit (j : sjournal) (now : Z) : option (sjournal * list Z)
         Some (mksj (s_queue j1) (s_off j1) recs' (s_la j1), out)
   end.
 
-(* update_largest: true = Ok *)
+(* update_largest: true = Ok.  `largest >= sent_packets.largest()` (the next packet number to be
+   sent) is an acknowledgement of a packet never sent: PROTOCOL_VIOLATION (fix of F8; was `>`) *)
 Definition update_largest (j : sjournal) (largest : Z) : sjournal * bool :=
-  if s_next j <? largest then (j, false)
+  if s_next j <=? largest then (j, false)
   else (mksj (s_queue j) (s_off j) (s_recs j) (Z.max (s_la j) largest), true).
 
 (* ---- SentRotateGuard life: a list of sub-operations, then Drop = resize ---- *)
